@@ -1,6 +1,6 @@
 (* C09 proofs, part 7: the boolean invariants evaluated by the runner are the declarative ones. *)
 From Coq Require Import List ZArith QArith Bool Lia Arith.
-From Gst Require Import C09.Model C09.Readers C09.Spec.
+From Gst Require Import C09.Model C09.Readers C09.Spec C09.Proofs_prim C09.Proofs_loc.
 Import ListNotations.
 Local Open Scope Z_scope.
 
@@ -17,6 +17,21 @@ Proof.
   - intros H. inversion H; subst. split; [|assumption]. destruct (memZ x l) eqn:E; [|reflexivity].
     apply memZ_In in E. contradiction.
 Qed.
+Lemma memL_In : forall x l, memL x l = true <-> In x l.
+Proof.
+  induction l as [|y l IH]; simpl; [split; [discriminate|contradiction]|].
+  rewrite orb_true_iff, IH. split; intros [H|H]; auto.
+  - left. apply bytes_eqb_eq. assumption.
+  - left. subst. apply bytes_eqb_refl.
+Qed.
+Lemma nodupL_NoDup : forall l, nodupL l = true <-> NoDup l.
+Proof.
+  induction l as [|x l IH]; simpl; [split; [constructor|reflexivity]|].
+  rewrite andb_true_iff, negb_true_iff, IH. split.
+  - intros [H1 H2]. constructor; [|assumption]. intro HI. apply memL_In in HI. congruence.
+  - intros H. inversion H; subst. split; [|assumption]. destruct (memL x l) eqn:E; [|reflexivity].
+    apply memL_In in E. contradiction.
+Qed.
 Lemma list_eqZ_eq : forall a b, list_eqZ a b = true <-> a = b.
 Proof.
   induction a as [|x a IH]; intros [|y b]; simpl; try (split; [discriminate|discriminate]); [split; reflexivity|].
@@ -31,7 +46,7 @@ Qed.
 
 Theorem wf_db_b_spec : forall d, wf_db_b d = true <-> wf_db d.
 Proof.
-  intros d. unfold wf_db_b, wf_db. rewrite !andb_true_iff, !Z.leb_le, !Z.eqb_eq, list_eqZ_eq, nodupZ_NoDup, Nat.eqb_eq.
+  intros d. unfold wf_db_b, wf_db. rewrite !andb_true_iff, !Z.leb_le, !Z.eqb_eq, list_eqZ_eq, nodupZ_NoDup, nodupL_NoDup, Nat.eqb_eq.
   rewrite (forallb_Forall _ _ (fun u => 0 <= u < d_ncol d)).
   - tauto.
   - intros x. rewrite andb_true_iff, Z.leb_le, Z.ltb_lt. tauto.
